@@ -178,7 +178,7 @@ def retry_cases():
     so the failed attempt's upvalues are the only ones the thread ever had open"""
     out = []
     for catcher, fails, cap, where in itertools.product(["pcall", "xpcall", "coresume", "cowrap_in_pcall"], ["all", "first", "second", "none"],
-                                                        ["get", "incget"], ["main", "function", "coroutine"]):
+                                                        ["get", "incget", "two"], ["main", "function", "coroutine"]):
         p = Prog()
         # attempt(tag): local v = tag; K[#K+1] = closures over v; fails when told to
         body = [p.local(["v"], [p.id("tag")])]
@@ -186,6 +186,13 @@ def retry_cases():
         if cap == "incget":
             body.append(p.assign([p.index(p.id("K"), p.bin("+", p.un("#", p.id("K")), p.num(1)))],
                                  [p.func([], p.block([p.assign([p.id("v")], [p.bin("..", p.id("v"), p.str("+"))]), p.ret([p.id("v")])]))]))
+        if cap == "two":
+            # a second captured local of the same activation, written by the activation itself after the capture
+            body.append(p.local(["w"], [p.bin("..", p.id("tag"), p.str("-w"))]))
+            body.append(p.assign([p.index(p.id("K"), p.bin("+", p.un("#", p.id("K")), p.num(1)))], [p.func([], p.block([p.ret([p.id("w"), p.id("v")])]))]))
+            body.append(p.assign([p.id("w")], [p.bin("..", p.id("w"), p.str("!"))]))
+            body.append(p.assign([p.id("v")], [p.bin("..", p.id("v"), p.str("!"))]))
+            body.append(p.emit([p.str("own"), p.call(p.index(p.id("K"), p.un("#", p.id("K"))), [])]))
         body.append(p.if_([p.id("fail")], [p.block([p.callstat(p.call(p.id("error"), [p.bin("..", p.str("failed-"), p.id("tag"))]))])]))
         body.append(p.ret([p.bin("..", p.str("done-"), p.id("tag"))]))
         ss = [p.assign([p.id("K")], [p.table([])]),
